@@ -191,6 +191,18 @@ def run_case(ctx, i, rng):
                 n.set_top_instance(real_top)
             assert n.top_instance is real_top
             ctx.count("histories_with_the_top_elsewhere_before")
+    if i % 8 == 5:
+        # definitions need not have names: a shared non-leaf cell without one (as in the library's own examples)
+        shared_ = [d_ for l in n.libraries for d_ in l.definitions if d_.children and len(d_.references) > 1 and d_.name and
+                   d_ is not n.top_instance.reference]
+        for d_ in shared_[:2]:
+            try:
+                if "EDIF.identifier" in d_:
+                    d_.pop("EDIF.identifier")       # (no name and no identifier: an anonymous cell)
+                del d_.name
+                ctx.count("shared_cells_left_nameless")
+            except ValueError:
+                pass
     e0 = Elab(n, max_occ=2500)
     if e0.truncated:
         ctx.count("discarded_too_large")
